@@ -50,10 +50,10 @@ def kind(tok: str) -> str:
     return tok.split(":")[0]
 
 
-def conn(sni="none", local="loc4:1", addr="none", upcn="none", upsans=(), upopt=True, uporg=False):
+def conn(sni="none", local="loc4:1", addr="none", upcn="none", upsans=(), upopt=True, uporg=False, nested=False):
     icls = {"none": "local6" if kind(local) == "loc6" else "local4"}.get(sni, kind(sni))
     return {"sni": sni, "local": local, "addr": addr, "upcn": upcn, "upsans": tuple(upsans), "uporg": uporg,
-            "upopt": upopt, "icls": icls}
+            "upopt": upopt, "icls": icls, "nested": nested}
 
 
 def conns_for(tier):
@@ -106,6 +106,13 @@ def conns2_for(tier):
           conn("dns:1", "loc4:1", "dns:2", "dns:1", ("dns:1", "dns:3")),
           conn("none", "loc4:1", "none", "none", ()),
           conn("ip4:1", "loc4:1", "ip4:2", "none", ())]
+    # TLS-over-TLS: a second handshake inside an explicit-proxy outer hop (same Client object: its TLS attributes are history)
+    for loc in ("loc4:1", "loc6:1"):
+        c2 += [conn("none", loc, "dns:2", nested=True), conn("none", loc, "ip4:2", nested=True),
+               conn("dns:2", loc, "dns:2", nested=True), conn("ip4:1", loc, "ip4:2", nested=True)]
+        if tier != "quick":
+            c2 += [conn("none", loc, "dns:2", "dns:2", ("dns:2", "dns:3"), nested=True),
+                   conn("dns:1", loc, "dns:2", nested=True), conn("idn:1", loc, "idn:2", nested=True)]
     if tier != "quick":
         c2 += [conn("long:1", "loc4:1", "none", "none", ()), conn("dns:1", "loc4:1", "none", "cnstr:1", ("wild:1", "dns:1")),
                conn("idn:1", "loc4:1", "dns:2", "none", ("dns:2", "ip4:2")), conn("none", "loc6:1", "ip4:2", "none", ())]
@@ -262,7 +269,12 @@ class Run:
                 data.context.client.sni = c["sni_u"]  # an addon (or the QUIC layer) handing over the U-label form
 
         addr = c["addr"]
-        if addr is None:
+        nested = bool(c.get("nested")) and getattr(self, "outer", None) is not None
+        if c.get("nested") and not nested:
+            return {"k": "diverged", "why": "no open outer hop to nest in"}
+        if nested:
+            mode = "swp_inner"
+        elif addr is None:
             mode = extras.get("outer_mode", "swp_outer")
         else:
             try:
@@ -270,14 +282,26 @@ class Run:
                 mode = "transparent"
             except ValueError:
                 mode = "regular_inner"
-        fs = tlslab.FullStack(self.lb, mode, sockname=(c["local"], 8080),
-                              server_address=(addr, 443) if addr else ("203.0.113.5", 443), before=before)
+        wrap = None
+        if nested:
+            # the same client connection: CONNECT inside the outer hop's TLS session, then the inner ClientHello
+            fs, wrap = self.outer
+            self.outer = None
+            fs.before = before
+            wrap.write_app(fs.connect_request(addr))
+            wrap.give(fs.feed_client(wrap.take()))
+            wrap.read_app()
+        else:
+            fs = tlslab.FullStack(self.lb, mode, sockname=(c["local"], 8080),
+                                  server_address=(addr, 443) if addr else ("203.0.113.5", 443), before=before)
         if mode == "regular_inner":
             fs.feed_client(fs.connect_request(addr))
         sni = c["sni"]
-        peer = tlslab.OsslClient(None if sni is None else sni.encode("ascii", "surrogateescape"))
+        wire = sni if sni is not None else c.get("sni_wire")  # sni_wire: a server_name mitmproxy's parser discards
+        peer = tlslab.OsslClient(None if wire is None else wire.encode("ascii", "surrogateescape"))
         now = datetime.datetime.now(datetime.timezone.utc)
-        tlslab.pump_client_handshake(fs, peer)
+        done = tlslab.pump_client_handshake(fs, peer, wrap)
+        self.outer = (fs, peer) if (done and not nested and addr is None and mode == "swp_outer" and upcert is None) else None
         chain = peer.chain()
         src = "upstream_cn" if (c["upopt"] and c.get("upcn_kind") == "badcn") else "other"
         if fs.raised:
@@ -334,7 +358,7 @@ def concretise(c: dict, tt: dict) -> dict:
     return {"sni": g(c["sni"]), "local": tt[c["local"]], "addr": g(c["addr"]), "upcn": g(c["upcn"]),
             "upcn_kind": kind(c["upcn"]) if c["upcn"] != "none" else None,
             "upsans": [(kind(t), tt[t]) for t in c["upsans"]], "uporg": bool(c.get("uporg")),
-            "upopt": bool(c["upopt"]), "icls": c["icls"],
+            "upopt": bool(c["upopt"]), "icls": c["icls"], "nested": bool(c.get("nested")), "sni_wire": c.get("sni_wire"),
             "sni_u": IDN_U.get(g(c["sni"])) if c.get("ulabel") else None}
 
 
@@ -375,6 +399,7 @@ class Check(core.PropertyCheck):
                 "ConnsAlt": frozenset(core.tlaval.FrozenDict(c) for c in alt),
                 "Conns2": frozenset(core.tlaval.FrozenDict(c) for c in conns2_for(tier)),
                 "MaxConns": 2, "Long": frozenset({"long:1", "long:2"}), "BadIdna": frozenset({"badcn:1"}),
+                "KeepOuterSni": False,
                 "DnsIp": frozenset((f"{d}:{n}", f"{i}:{n}") for d, i in DNS_IP.items() for n in (1, 2, 3)),
                 "LegacyCnRaises": False, "LegacyCritSan": False}
 
@@ -415,7 +440,8 @@ class Check(core.PropertyCheck):
             first = (tuple(env), tuple(sorted((k, str(v)) for k, v in cs[0].items())))
             hot = cs[0]["addr"] == "none" and cs[0]["sni"] in ("dns:1", "none") and cs[0]["upopt"] \
                 and (not ctx.quick or tuple(env) == ("default", 0))
-            if (hot and len(cs) > 1) or have.get(first, 0) < per_first:
+            nest = len(cs) > 1 and cs[1].get("nested") and (not ctx.quick or tuple(env) == ("default", 0))
+            if (hot and len(cs) > 1) or nest or have.get(first, 0) < per_first:
                 keep.append((env, cs, pred))
                 have[first] = have.get(first, 0) + 1
         cands = keep
@@ -458,12 +484,21 @@ class Check(core.PropertyCheck):
                               uporg=(upcn != "none" or bool(upsans)) and rng.random() < 0.4))
             if sni != "none" and kind(sni) == "idn" and rng.random() < 0.6:
                 conns[-1]["ulabel"] = True
+            if sni == "none" and rng.random() < 0.3:  # not a DNS name: counts as "without SNI"
+                conns[-1]["sni_wire"] = rng.choice(["*.example.com", "exa mple.com", "a..b", "*"])
+            if conns[-1]["addr"] == "none" and upcn == "none" and not upsans and rng.random() < 0.7:
+                # TLS-over-TLS on the same client connection
+                s2 = rng.choice(["none", "none", pick(["dns", "ip4", "idn"])])
+                conns.append(conn(s2, loc, pick(["dns", "ip4"]), nested=True))
+                if s2 == "none" and rng.random() < 0.4:
+                    conns[-1]["sni_wire"] = rng.choice(["*.example.com", "exa mple.com", "*"])
         for c in conns:
             c["upsans"] = list(c["upsans"])
         return {"ca": rng.choice(["default", "default", "chain", "chain_nonski"]), "tz": rng.choice([0, 14, -11, 5]),
                 "conns": conns, "salt": rng.randrange(1 << 20), "mixcase": rng.random() < 0.5,
                 "org": rng.randrange(len(ORGS)), "crl": rng.randrange(len(CRLS)),
-                "outer_mode": rng.choice(["swp_outer", "upstream_outer"])}
+                "outer_mode": "swp_outer" if any(c.get("nested") for c in conns) else
+                rng.choice(["swp_outer", "upstream_outer"])}
 
     def execute(self, sc):
         toks = set()
